@@ -62,3 +62,10 @@ check(
     "Trusts the independent re-derivation of the sea/swell thresholds from the documented formulas; carries within 1e-12 of a threshold are not judged; the 'unambiguous carry' clause follows the documented matching rule.",
     "DESIGN.md section 5 C19",
 )
+check(
+    "C08",
+    "Hypothesis-generated (source grid, target grid, spectra, maintain_m0) and (grid, rotation angle) cases checked against coordinate / identity / non-negativity / zero-above-fmax / Hs-conservation predicates and an independent circular bilinear interpolation",
+    "Thousands (quick) / ~10^5 (thorough) grid pairs incl. unsorted and descending stored directions, duplicated 0/360 bins, targets inside the seam gap and outside the source frequency range, zero spectra inside batches, float32/64. Exploration.",
+    "Trusts np.interp-based reference (vf/props/c08.ref_regrid) and the reference Hs; uniform full-circle target direction grids (so that a bin width exists for Hs).",
+    "DESIGN.md section 5 C08",
+)
